@@ -139,17 +139,22 @@ CLAIMED = {
         ref='DESIGN.md §7 C08, §5.1, §6 F2/F3'),
     'C12': dict(
         technique='Lean 4 proof (containers reduced to the item list they hand to the trait default methods; permutation '
-                  'invariance; trace decomposition of reason_all_causes) + differential correspondence run over six holders',
+                  'invariance; trace decomposition of reason_all_causes; mutual structural induction over nested causaloids for graph twins) '
+                  '+ differential correspondence run over six holders and graph/clone/twin triples',
         text='Theorems c12_len_is_number_of_items, c12_items_of_containers (slice/Vec/VecDeque = the sequence, BTreeMap = ascending '
              'keys, HashMap = a permutation), c12_answers_function_of_items / c12_same_items_same_answers (every answer of the four '
              'reasoning traits is a function of the item list), c12_perm_invariant_{assumable,inferable,observable,causable} (counts, '
              'percentages, "all" answers equal, filters equal as multisets under List.Perm), c12_verdict_independent_of_cells, '
              'c12_reason_idempotent (any number of repetitions), c12_clone_same_verdict_partial (same shape => same verdict, for '
-             'collections of causaloids). Correspondence: the same item descriptions in [T], Vec, VecDeque (wrapped ring), BTreeMap, '
+             'collections of causaloids); Props/C12Graph.lean over the nested causaloid model: c12_graph_twin_same_verdict, '
+             'c12_nested_twin_same_verdict, c12_collection_twin_same_verdict (a model rebuilt with fresh activation cells returns the '
+             'same verdict, any nesting depth, any data/index/contexts), c12_graph_twin_same_activation (and ends in the mirrored '
+             'activation state), c12_graph_repeat_idempotent (n+1 repetitions of any call after any history = one call). Correspondence: the same item descriptions in [T], Vec, VecDeque (wrapped ring), BTreeMap, '
              'HashMap and a rebuilt twin, every trait method on each, each dump computed twice; CausaloidGraph vs clone() vs rebuilt '
-             'twin compared on the real code.',
-        note='Partial: CausaloidGraph is not modelled in Lean for this property (graph/clone/twin equality is checked on the real '
-             'code only, acyclic graphs); nesting depth of collection causaloids is 1 in the model. Trusted: Lean kernel, '
+             'twin compared on the real code, the graph verdicts (all causes, subgraph, single cause) also against Model/CausalGraph.lean.',
+        note='Partial: a clone is the same value in the model (shared Arc flags), so clone equality is a correspondence result; the C12 '
+             'run uses flat acyclic graphs (nested ones are replayed by C02/C11); shortest-path verdicts of graph/clone/twin are '
+             'compared on the real code only; nesting depth of collection causaloids is 1 in Model/Collections.lean. Trusted: Lean kernel, '
              'Model/Collections.lean + Model/Reasoning.lean (hand-written), f64 execution in the Lean runtime, HashMap order as '
              'reported by get_all_items().',
         ref='DESIGN.md §7 C12'),
